@@ -581,32 +581,7 @@ func (fr *Frame) checkEnsuresAt(suffix string) {
 	// frame: a pure / modifies-nothing function leaves every pre-existing heap object unchanged
 	exceptNames := modifiesPointees(fr.con)
 	if fr.isTop && (fr.con.Pure || modifiesNothing(fr.con) || len(exceptNames) > 0) {
-		var except []Term
-		for _, n := range exceptNames {
-			if tv, ok := fr.params[n]; ok && tv.T.Sort == SRef {
-				except = append(except, tv.T)
-			} else if !isPlainIdent(n) {
-				ex, err := parseCExpr(n)
-				var tv TV
-				if err == nil {
-					ec := fr.evalCtx(fr.entry, fr.entry, token.NoPos)
-					ec.entryPar = true
-					tv, err = ec.eval(ex)
-				}
-				switch {
-				case err != nil:
-					c.stale = append(c.stale, fmt.Sprintf("%s:%d: modifies *%s: %v", fr.con.File, fr.con.Line, n, err))
-				case tv.T.Sort == SRef:
-					except = append(except, tv.T)
-				case tv.T.Sort == SSlice:
-					except = append(except, slPtr(tv.T))
-				default:
-					c.stale = append(c.stale, fmt.Sprintf("%s:%d: modifies *%s: not a pointer, map or slice", fr.con.File, fr.con.Line, n))
-				}
-			} else {
-				c.stale = append(c.stale, fmt.Sprintf("%s:%d: modifies *%s: not a pointer parameter", fr.con.File, fr.con.Line, n))
-			}
-		}
+		except := fr.frameExcept()
 		var keys []string
 		for k, ki := range c.keys {
 			if !ki.local && k != "epoch" {
@@ -720,4 +695,40 @@ func contractPackages(repo string) (map[string][]string, error) {
 		return nil
 	})
 	return out, err
+}
+
+// frameExcept: the objects a `modifies *p, *recv.field` clause allows the function to change
+// (evaluated in the entry state, once).
+func (fr *Frame) frameExcept() []Term {
+	c := fr.c
+	if fr.exceptDone {
+		return fr.except
+	}
+	fr.exceptDone = true
+	for _, n := range modifiesPointees(fr.con) {
+		if tv, ok := fr.params[n]; ok && tv.T.Sort == SRef {
+			fr.except = append(fr.except, tv.T)
+		} else if !isPlainIdent(n) {
+			ex, err := parseCExpr(n)
+			var tv TV
+			if err == nil {
+				ec := fr.evalCtx(fr.entry, fr.entry, token.NoPos)
+				ec.entryPar = true
+				tv, err = ec.eval(ex)
+			}
+			switch {
+			case err != nil:
+				c.stale = append(c.stale, fmt.Sprintf("%s:%d: modifies *%s: %v", fr.con.File, fr.con.Line, n, err))
+			case tv.T.Sort == SRef:
+				fr.except = append(fr.except, tv.T)
+			case tv.T.Sort == SSlice:
+				fr.except = append(fr.except, slPtr(tv.T))
+			default:
+				c.stale = append(c.stale, fmt.Sprintf("%s:%d: modifies *%s: not a pointer, map or slice", fr.con.File, fr.con.Line, n))
+			}
+		} else {
+			c.stale = append(c.stale, fmt.Sprintf("%s:%d: modifies *%s: not a pointer parameter", fr.con.File, fr.con.Line, n))
+		}
+	}
+	return fr.except
 }
